@@ -98,6 +98,37 @@ def construct_spellings():
     return L
 
 
+def operator_programs():
+    """every operator with a user-defined overload of the function it stands for (the operator table is
+    interned per compilation: its meaning may not depend on what was compiled before)"""
+    L = []
+    binops = {"+": "add", "-": "sub", "*": "mul", "/": "div", "%": "mod", "**": "pow", "&&": "and", "||": "or", "<": "lt", ">": "gt",
+              "<=": "le", ">=": "ge", "==": "eq", "!=": "ne", "&": "bit_and", "|": "bit_or", "^": "bit_xor"}
+    for sym, fn in binops.items():
+        L.append("struct P(x: int)\nfn %s(a: P, b: P)->int { a::x * 100 + b::x }\nlet r = P(1) %s P(2);\n" % (fn, sym))
+        L.append("let r = 7 %s 2;\n" % sym if sym not in ("&&", "||") else "let r = true %s false;\n" % sym)
+    for sym, fn in {"-": "neg", "!": "not", "+": "pos"}.items():
+        L.append("struct P(x: int)\nfn %s(a: P)->int { a::x + 1000 }\nlet r = %sP(1);\n" % (fn, sym))
+        L.append("fn %s(a: str)->str { a + \"!\" }\nlet r = %s\"s\";\n" % (fn, sym))
+        L.append("let r = %s3;\n" % sym)
+        L.append("let r = %strue;\n" % sym)
+    return L
+
+
+def long_error_spans():
+    """compile errors whose quoted source excerpt is long and full of multi-byte characters, at every alignment"""
+    L = []
+    for ch in ("é", "中", "😀"):
+        for off in range(4):
+            for count in (20, 30, 39, 40, 41, 59, 60, 61, 80, 100, 127, 128):
+                pad = "a" * off + ch * count
+                L.append('let z: bool = "%s";\n' % pad)
+                L.append('let z = no_such_function_anywhere("%s", 1);\n' % pad)
+                L.append('let z = 1 + "%s";\n' % pad)
+                L.append('fn f(a: int)->int { a }\nlet z = f("%s");\n' % pad)
+    return L
+
+
 def run(chk, tier, seed):
     rnd = random.Random(seed)
     n_soup, n_mut = (1500, 1200) if tier == "quick" else (20000, 15000)
@@ -109,7 +140,9 @@ def run(chk, tier, seed):
     base = [s["src"] for s in corpus.scripts()] + [b["src"] for b in corpus.book_blocks()]
     for _ in range(n_mut):
         texts.append(mutate(rnd, rnd.choice(base), base))
-    texts += literal_spellings() + construct_spellings()
+    texts += literal_spellings() + construct_spellings() + operator_programs()
+    spans = long_error_spans()
+    texts += spans if tier == "thorough" else spans[seed % 3::3]
     texts += base
     for i in range(100 if tier == "quick" else 1000):
         texts.append(coregen.render(coregen.Gen(seed + i, max_depth=3, n_decls=5).program("x")))
@@ -152,6 +185,31 @@ def run(chk, tier, seed):
             events.append({"ev": "Behave", "text": tid[t], "res": b_, "job": j["id"]})
         if "events" in o:
             traces.append((j, o))
+    # the same texts as the FIRST compilation of a fresh process (nothing interned, cached or counted yet)
+    fresh = operator_programs() + construct_spellings()[::7] + rnd.sample(texts, 40 if tier == "quick" else 400)
+    fresh = list(dict.fromkeys(fresh))
+
+    def one_fresh(item):
+        k, t = item
+        return vf.run_jobs([{"id": "fresh%d" % k, "src": t, "observe": [], "timeout_ms": 20000, "max_elems": 8, "limits": {"calls": 20000, "depth": 200}}],
+                           "c12-fresh%d" % k, threads=1, timeout_ms=20000)["fresh%d" % k]
+    from concurrent.futures import ThreadPoolExecutor
+    with ThreadPoolExecutor(max_workers=max(2, vf.NCPU - 4)) as ex:
+        fres = list(ex.map(one_fresh, list(enumerate(fresh))))
+    for t, o in zip(fresh, fres):
+        oc = vf.job_outcome(o)
+        comp = o.get("compile", {})
+        chk.count(1)
+        if oc in ("crash", "timeout", "missing", "compile_panic") or "render_panic" in comp:
+            events.append({"ev": "Panic", "text": tid[t], "res": 0, "job": "fresh"})
+            first_bad.setdefault(tid[t], (oc, comp))
+            continue
+        key = json.dumps([comp.get("ok"), comp.get("class"), comp.get("msg")])
+        events.append({"ev": "Compile", "text": tid[t], "res": rid.setdefault(key, len(rid) + 1), "job": "fresh process"})
+        if comp.get("ok"):
+            beh = json.dumps([oc, o.get("stdout"), o.get("values")], sort_keys=True)
+            events.append({"ev": "Behave", "text": tid[t], "res": rid.setdefault(beh, len(rid) + 1), "job": "fresh process"})
+    chk.part("fresh_process", texts=len(fresh))
     # XrCompile: the outcome is a function of the text
     d = vf.workdir("c12-tr")
     path = d + "/compile.ndjson"
@@ -193,7 +251,8 @@ def run(chk, tier, seed):
     chk.sample({"text": texts[-5][:300]})
     chk.cov["rule"] = ("texts = TLC token soups (XrSoup) + seeded token-level mutations/splices of shipped scripts and book "
                        "examples + literal spellings + bracket nesting <= 64 + generated programs; each compiled 3x in one "
-                       "process at shuffled positions (once under tight limits), accepted ones run; non-trivial = distinct text")
+                       "process at shuffled positions (once under tight limits), accepted ones run; operator programs and a sample also as the "
+                       "first compilation of a fresh process; long multi-byte error excerpts at every alignment; non-trivial = distinct text")
     chk.assumptions += ["the input space is sampled, not exhausted", "compile happens before a runtime exists in the host API, so 'never touches writer/clock/rng' is checked as 'no event between CompileBegin and CompileEnd'"]
 
 
